@@ -246,8 +246,11 @@ class C19(Check):
     level_text = ("Theorems: for every scalar type satisfying four order facts (and concretely over the reals) and for "
                   "EVERY value of the computed cosine the clamped argument is in [-1,1], so no judgement errs and "
                   "take_picture returns; over the reals the verdict is exactly the cone predicate, the picture exactly the "
-                  "other nodes in the cone with their positions, and translation changes nothing.  The model is tied to "
-                  "the code by bit-level comparison of pictures at Float.")
+                  "other nodes in the cone with their positions, and translation changes nothing; for several cameras whose "
+                  "configuration objects are held by reference (any scalar type) change_facing changes the axis of the camera "
+                  "it is called on and of no other, the constructor gives a camera the configuration it was passed, so each "
+                  "picture is exactly the other nodes in the cone of the camera that took it.  The model is tied to the code "
+                  "by bit-level comparison of pictures at Float (single cameras and fleets).")
     rule = ("real CameraHardware on a protocol of a real simulation with a real MobilityHandler; orientations over the full "
             "sphere; 2-14 nodes per scene: at k*axis and -k*axis (computed in floats, camera at the origin and elsewhere), "
             "at the camera's own position, on the integer-lattice reach boundary, random in 1.5*reach; dyadic scenes "
@@ -463,9 +466,12 @@ class C19(Check):
     def model_input(self, case, impl):
         cfg = dict(case["cfg"])
         cfg["tol"] = fbits(CAMERA_TOL)
-        return {"kind": "camera", "cfg": cfg, "selfId": case["selfIndex"],
+        line = {"kind": "camera", "cfg": cfg, "selfId": case["selfIndex"],
                 "self": case["positions"][case["selfIndex"]],
                 "nodes": [[i, p] for i, p in enumerate(case["positions"])]}
+        if case.get("fleet"):
+            line["fleet"] = case["fleet"]        # Camera.Fleet: constructors, change_facing, pictures
+        return line
 
     def compare(self, case, impl, model):
         mp = model["picture"]
@@ -479,7 +485,21 @@ class C19(Check):
         if got != want:
             return [f"picture differs: implementation {[bitsv3(p) for p in got][:6]} ({len(got)} entries), model "
                     f"{[(p[0], bitsv3(p[1])) for p in mp][:6]} ({len(want)} entries); verdicts {model['verdicts'][:8]}"]
-        return []
+        diffs = []
+        if case.get("fleet") and impl.get("fleet") is not None:
+            mf = model.get("fleet") or []
+            shots = [sh for sh in impl["fleet"] if not str(sh["crash"] or "").startswith(("change_facing", "building"))]
+            if len(shots) != len(mf):
+                diffs.append(f"fleet: implementation took {len(shots)} pictures, model {len(mf)}")
+            for sh, m in zip(shots, mf):
+                got = None if sh["picture"] is None else [list(p) for p in sh["picture"]]
+                want = None if m is None else [list(p[1]) for p in m]
+                if got != want:
+                    diffs.append(f"fleet operation {sh['op']} (picture by camera {sh['cam']}): implementation "
+                                 f"{None if got is None else [bitsv3(p) for p in got][:6]}"
+                                 f"{' raised ' + sh['crash'] if sh['crash'] else ''}, model "
+                                 f"{None if m is None else [(p[0], bitsv3(p[1])) for p in m][:6]}")
+        return diffs[:5]
 
     # -------------------------------------------------------------------------------- predicate
     def _judge_scene(self, cfg, positions, self_index, pic, fails, tag="", wide=False):
@@ -725,7 +745,8 @@ class C20(Check):
     level_text = ("Theorems over the reals: north-south leg = R*|dphi| exactly, east-west leg = 2R*asin(cos(phi0)*|sin(dlambda/2)|) "
                   "within [R cos(phi0)|dl|(1-dl^2/24), R cos(phi0)|dl|], x/y/z and their signs in all four quadrants (signed closed "
                   "form), exact distances along the reference meridian, the general bound (|lat0| <= 60 deg, both targets within 5 km: "
-                  "converted distance within 0.3% < 0.5% of great-circle distance + altitude), geographic goto = Cartesian goto to "
+                  "converted distance within 0.3% < 0.5% of great-circle distance + altitude), a target at the reference's latitude "
+                  "and longitude maps to (0, 0, altitude difference), geographic goto = Cartesian goto to "
                   "the converted point (every scalar type).  The 1% band for 60 < |lat0| <= 80 deg is supported by the sampled "
                   "comparison of this check only.")
     rule = ("references over latitudes +-80 deg and all longitudes, 2-8 targets within 5 km in all four quadrants with unequal "
@@ -854,7 +875,7 @@ class C20(Check):
         return out
 
     def model_input(self, case, impl):
-        return {"kind": "geo", "ref": case["ref"], "targets": case["targets"]}
+        return {"kind": "geo", "ref": case["ref"], "targets": case["targets"], "sites": case.get("sites") or []}
 
     def compare(self, case, impl, model):
         if impl["crash"]:
@@ -864,6 +885,14 @@ class C20(Check):
             if list(a) != list(b):
                 diffs.append(f"target {i} {bitsv3(case['targets'][i])} (ref {bitsv3(case['ref'])}): implementation "
                              f"{bitsv3(a)}, model {bitsv3(b)}")
+        for k, (x, res, mpts) in enumerate(zip(case.get("sites") or [], impl.get("sites") or [], model.get("sites") or [])):
+            if res["crash"]:
+                diffs.append(f"reference no. {k + 2} {bitsv3(x)}: implementation raised {res['crash']}")
+                continue
+            for i, (a, b) in enumerate(zip(res["points"], mpts)):
+                if list(a) != list(b):
+                    diffs.append(f"target {i} {bitsv3(case['targets'][i])} (reference no. {k + 2} {bitsv3(x)}): "
+                                 f"implementation {bitsv3(a)}, model {bitsv3(b)}")
         return diffs
 
     @staticmethod
